@@ -31,7 +31,7 @@ META = {
         'every changed pixel is compared with the reference region; complete filling is demanded exactly when the region held no '
         'fill-coloured pixel. 12 adapter/mode pairs (1, 2 and 4 bits per pixel); a seed-independent set of trap shapes runs in every shard.'),
     'level_note': (
-        'Solid fills are reached through the PAINT statement (absolute, STEP relative to the observed POINT(0)/POINT(1), logical coordinates under WINDOW / WINDOW SCREEN) and through DRAW "BMx,y Pf,b", under VIEW / VIEW SCREEN / no VIEW; under WINDOW the physical start point of the reference is what PMAP returns for the logical coordinates given. Tiled PAINT is not pinned. Colour NUMBERS beyond the highest attribute are used for fill and '
+        'Solid fills are reached through the PAINT statement (absolute, STEP relative to the observed POINT(0)/POINT(1), logical coordinates under WINDOW / WINDOW SCREEN) and through DRAW "BMx,y Pf,b", under VIEW / VIEW SCREEN / no VIEW; under WINDOW the physical start point of the reference is what PMAP returns for the logical coordinates given. Every legal form of the argument list is used (,f,b / ,f / ,,b / none, each with and without the background-tile argument, and in packed-pixel modes a tile string whose pixels all are the fill attribute): a legal form must not raise (paint:legal-form-raised-error) and must fill like the reference. Tiles with mixed pixels are not pinned. Colour NUMBERS beyond the highest attribute are used for fill and '
         'border, with the walls drawn with the same number; which attribute a number denotes is OBSERVED (PSET with that number on a scratch '
         'pixel, read from the page buffer), never modelled. Omitted border = the paint attribute, and omitted paint = the attribute PSET '
         'without colour stores, are taken from the GW-BASIC manual. Negative numbers denote no attribute: executed and counted, nothing '
@@ -43,7 +43,7 @@ META = {
              'border pixel / outside the viewport'),
     'design_ref': 'DESIGN.md section 4 C32',
     'assumptions': ['planting statements (LINE, PSET, CIRCLE, PUT) only prepare the picture; the snapshot before PAINT is the ground truth'],
-    'require_counters': {'any': ['paints_through_draw', 'paints_through_draw_under_window', 'paints_logical_seed', 'paints_step_seed', 'window_on', 'window_screen', 'paints_out_of_range_border', 'paints_out_of_range_fill', 'paints_border_omitted', 'paints_fill_and_border_omitted', 'paints', 'paints_changed_pixels', 'complete_fill_demanded', 'region_touches_viewport_edge',
+    'require_counters': {'any': ['paints_fill_omitted_border_given', 'paints_with_background_argument', 'paints_uniform_tile', 'paints_through_draw', 'paints_through_draw_under_window', 'paints_logical_seed', 'paints_step_seed', 'window_on', 'window_screen', 'paints_out_of_range_border', 'paints_out_of_range_fill', 'paints_border_omitted', 'paints_fill_and_border_omitted', 'paints', 'paints_changed_pixels', 'complete_fill_demanded', 'region_touches_viewport_edge',
                                  'seed_on_border', 'seed_outside_viewport', 'view_on', 'view_off', 'region_had_fill_pixels',
                                  'shape_maze', 'shape_spiral', 'shape_diagonals', 'shape_serpentine']},
     'timeout': {'quick': 900, 'thorough': 3600},
@@ -332,6 +332,14 @@ class Painter(object):
         self._attr_of[number] = val
         return val
 
+    def tile_byte(self, attr):
+        """Tile byte whose pixels all have attribute `attr`, for packed-pixel modes (GW-BASIC manual: the bits of a
+        tile byte are consecutive pixels); None for the plane-interleaved EGA modes (several bytes per row)."""
+        lab = self.g.mode['label'].split(':')[0]
+        if lab in ('ega', 'vga', 'ega64k', 'egamono') and self.g.mode['screen'] >= 7:
+            return None
+        return attr * {1: 255, 2: 0x55, 4: 0x11}[self.g.mode['bpp']]
+
     def spell(self, rng, attr, high=False):
         """A colour number denoting `attr`: the attribute itself or an out-of-range alias of it."""
         al = [n for n in self.ALIASES if n >= self.g.nattr and self.attr_of(n) == attr]
@@ -381,7 +389,7 @@ class Painter(object):
         return tx, ty, int(qx), int(qy)
 
     def bitmap(self, rng, shapes=None, geometry=None, paints=3, seeds=None, fills=None, colours=None, high=False,
-               window='random', entries=None):
+               window='random', entries=None, forms=None):
         g, res = self.g, self.res
         w, h = g.w, g.h
         g.direct(b'VIEW:WINDOW:CLEAR')   # no viewport, no window, no variables (the sprite array is dimensioned when needed)
@@ -397,6 +405,12 @@ class Painter(object):
                 form = 'border-omitted'        # GW-BASIC manual: the border defaults to the paint attribute
             elif r < 0.12:
                 form = 'both-omitted'          # paint attribute defaults to the foreground, as in PSET without colour
+            elif r < 0.20:
+                form = 'fill-omitted'          # PAINT (x,y),,b : paint attribute = foreground, border given
+        elif forms is not None:
+            form = forms
+        if form == 'fill-omitted' and self.attr_of(None) is None:
+            form = 'explicit'
         if form == 'both-omitted':
             d = self.attr_of(None)
             if d is None:
@@ -526,7 +540,7 @@ class Painter(object):
             if entries is not None:
                 entry = entries[k % len(entries)]
             elif form != 'explicit':
-                entry = 'paint'
+                entry = 'paint' if rng.random() < 0.7 else 'step'
             else:
                 r = rng.random()
                 entry = 'paint' if r < 0.55 else 'draw' if r < 0.85 else 'step'
@@ -559,27 +573,51 @@ class Painter(object):
                 res.count('paints_through_draw')
                 if window is not None:
                     res.count('paints_through_draw_under_window')
-            elif form == 'explicit':
-                fnum = self.spell(rng, f, high)
-                if colours is None and rng.random() < 0.02:
-                    # a negative number: no attribute is denoted, nothing is demanded (counted only)
-                    judgeable = False
-                    res.count('paints_negative_number')
-                    stmt = b'PAINT' + ptxt + (b',-1,%d' % bnum if rng.random() < 0.5 else b',%d,-1' % fnum)
-                else:
-                    stmt = b'PAINT' + ptxt + b',%d,%d' % (fnum, bnum)
-                    if bnum >= g.nattr:
-                        res.count('paints_out_of_range_border')
-                    if fnum >= g.nattr:
-                        res.count('paints_out_of_range_fill')
-            elif form == 'border-omitted':
-                f = b
-                stmt = b'PAINT' + ptxt + b',%d' % bnum
-                res.count('paints_border_omitted')
             else:
-                f = b
-                stmt = b'PAINT' + ptxt
-                res.count('paints_fill_and_border_omitted')
+                head = b'PAINT' + ptxt
+                # optional background-tile argument after a solid fill: legal, and without effect on a solid fill
+                bgarg = b',CHR$(%d)' % rng.choice([0, 85, 170, 255, rng.randrange(256)]) if rng.random() < 0.15 else b''
+                if form == 'explicit':
+                    fnum = self.spell(rng, f, high)
+                    tb = self.tile_byte(f)
+                    if colours is None and rng.random() < 0.02:
+                        # a negative number: no attribute is denoted, nothing is demanded (counted only)
+                        judgeable = False
+                        res.count('paints_negative_number')
+                        stmt = head + (b',-1,%d' % bnum if rng.random() < 0.5 else b',%d,-1' % fnum)
+                    elif tb is not None and colours is None and rng.random() < 0.12:
+                        # a tile string whose every pixel is the fill attribute: the picture a solid fill gives
+                        rows = rng.choice([1, 1, 2, 3, 8])
+                        tile = b'+'.join([b'CHR$(%d)' % tb] * rows)
+                        bgt = b''
+                        if rng.random() < 0.3:
+                            bgt = b',CHR$(%d)' % rng.choice([v for v in (0, 85, 170, 255, 51) if v != tb])
+                        stmt = head + b',' + tile + b',%d' % bnum + bgt
+                        res.count('paints_uniform_tile')
+                    else:
+                        stmt = head + b',%d,%d' % (fnum, bnum) + bgarg
+                        if bgarg:
+                            res.count('paints_with_background_argument')
+                        if bnum >= g.nattr:
+                            res.count('paints_out_of_range_border')
+                        if fnum >= g.nattr:
+                            res.count('paints_out_of_range_fill')
+                elif form == 'border-omitted':
+                    f = b
+                    stmt = head + b',%d' % bnum + (b',' + bgarg if bgarg else b'')      # ,f  or  ,f,,bg
+                    res.count('paints_border_omitted')
+                    if bgarg:
+                        res.count('paints_with_background_argument')
+                elif form == 'fill-omitted':
+                    f = self.attr_of(None)
+                    stmt = head + b',,%d' % bnum + bgarg                                 # ,,b  or  ,,b,bg
+                    res.count('paints_fill_omitted_border_given')
+                    if bgarg:
+                        res.count('paints_with_background_argument')
+                else:
+                    f = b
+                    stmt = head
+                    res.count('paints_fill_and_border_omitted')
             case = {'mode': g.mode['label'], 'view': view, 'viewport': list(V), 'shapes': [s if isinstance(s, str) else 'directed' for s in shapes],
                     'seed_abs': [sx, sy], 'stmt': stmt, 'bitmap_no': self.nb, 'border': b, 'fill': f, 'entry': entry,
                     'window': list(window[0]) + [window[1]] if window is not None else None}
@@ -590,6 +628,10 @@ class Painter(object):
                     code = g.direct(stmt)
                     if code:
                         res.count('step_paint_error_discarded')
+                        if not judgeable:
+                            return
+                        res.violation('paint:legal-form-raised-error', '%s: %s raised error %d (view %s %r)' % (
+                            g.mode['label'], stmt.decode(), code, view, V), case)
                         return
                 else:
                     code = g.trap(stmt)
@@ -605,6 +647,9 @@ class Painter(object):
                 res.inconclusive('harness: PAINT could not be run (%d)' % code)
                 return
             after = g.active()
+            if code and judgeable:
+                res.violation('paint:legal-form-raised-error', '%s: %s raised error %d (view %s %r, window %r)' % (
+                    g.mode['label'], stmt.decode(), code, view, V, window), case)
             if not judgeable:
                 res.case((g.mode['label'], 'negative', stmt, self.nb), nontrivial=False)
                 continue
@@ -826,6 +871,15 @@ def directed(pt):
                 # the same picture with border (walls AND PAINT) and fill spelled as out-of-range numbers
                 pt.bitmap(rng, shapes=[fn], geometry=geom, paints=len(seeds), seeds=seeds, fills=fills,
                           colours=(b, bg, [c for c in range(n) if c != b]), high=True, window=None)
+            if gi in (1, 3) and name in ('empty', 'comb', 'serpentine-h1', 'islands', 'notches'):
+                # every other syntactic form of the argument list (,,b / ,f / nothing; with a background argument at random)
+                d = pt.attr_of(None)
+                for fm in ('fill-omitted', 'border-omitted', 'both-omitted'):
+                    bb = b if fm == 'fill-omitted' else d
+                    if bb is None or d is None:
+                        continue
+                    pt.bitmap(rng, shapes=[fn], geometry=geom, paints=len(seeds), seeds=seeds, fills=[d],
+                              colours=(bb, (bb + 1) % n, [cc for cc in range(n) if cc != bb]), window=None, entries=['paint', 'paint', 'step'], forms=fm)
             if gi < 3 and name in ('empty', 'diag-split', 'comb', 'serpentine-v1', 'spiral-1px', 'islands'):
                 # the same picture under WINDOW / WINDOW SCREEN, through PAINT (logical seed) and through DRAW "P f,b"
                 wn = [((-1, -1, 1, 1), False), ((0, 0, 100, 100), True), ((10, 20, 500, 300), False)][(gi + len(name)) % 3]
@@ -861,6 +915,10 @@ def run_shard(spec, res):
             except gfx.ModeMismatch as e:
                 res.inconclusive('mode table: %s' % e)
                 return
+            except gfx.Corrupt as e:
+                res.violation('frame:page-buffer-corrupted:%s' % e.what, '%s: the screen can no longer be observed: %s' % (label, e), {'mode': label})
+                if phase == 'directed':
+                    break
             except harness.Internal:
                 res.count('internal_errors')
                 if phase == 'directed':
